@@ -96,7 +96,11 @@ fn main() {
 
     let n = ctx.tier.pick(40_000, 1_200_000);
     run_cases(&ctx, &replay, &mut rep, "generated", n, |rng, rep, _| {
-        let m = gen::gen_class(rng, &cfg);
+        let mut m = gen::gen_class(rng, &cfg);
+        // every fifth class: names, descriptors and strings redrawn from cf::hostile (NUL, encoding boundaries, lone / reversed
+        // surrogates, one-character and very long names, class names filling a descriptor edge to edge)
+        if rng.chance(1, 5) { let lm = if rng.chance(1, 25) { 5000 } else { 60 }; for t in cf::hostile::hostilise(rng, &mut m, (1, 3), lm) { rep.seen("hostile_names", t); } rep.count("shape.hostile_names"); }
+        let m = m;
         let feats = features::features(&m);
         if m.methods.iter().any(|x| x.name.ascii() == Some("siblings$dyn")) { rep.count("shape.sibling_dynamics"); }
         { let deep = |a: &Vec<Annotation>| a.iter().any(|x| x.type_.ascii() == Some("Ldeep/Anno;"));
